@@ -408,6 +408,9 @@ def wf_worker(job):
                 continue
             res["evaluated"] += 1
             tag = dict(x.split("=", 1) for x in line.rstrip("\n").split(" | ", 1)[1].split(" ")[2:] if "=" in x)
+            for k in ("file", "other"):
+                if k in tag:
+                    tag[k] = tag[k].replace("%20", " ").replace("%25", "%")
             w = tag.get("what", "?").split(":")[0]
             res["what"][w] = res["what"].get(w, 0) + 1
             if f[1] == "FAIL":
@@ -566,10 +569,11 @@ def run(ck):
                          "the C03 oracle harness aborted (rc=%d) after `%s`: %s" % (a["rc"], a["last_load"], a["sig"]))
         for f in r["fail"]:
             t = f["tag"]
-            ck.violation("wf:" + f["clauses"][0],
+            ck.violation("wf:%s:%s" % (f["clauses"][0], t.get("fmt", "?")),
                          {"kind": "file", "tag": t, "clauses": f["clauses"], "bytes_hex": emit_bytes(wf, t)},
-                         "%s (mutseed %s, smpctl %s, via %s, %s) loads with rc 0 but violates clause(s) %s of C03" % (
-                             t.get("file"), t.get("mutseed"), t.get("smpctl"), t.get("via"), t.get("what"), ",".join(f["clauses"])))
+                         "%s (format %s, mutant seed %s, smpctl %s, via %s, %s) loads with rc 0 but violates clause(s) %s of C03" % (
+                             t.get("file"), t.get("fmt"), t.get("mutseed"), t.get("smpctl"), t.get("via"), t.get("what"),
+                             ",".join(f["clauses"])))
         if r["publicview"]:
             ck.unproved("public view", "xmp_get_module_info does not expose the tables the harness dumps")
     ck.note("wf_loads", wstat)
